@@ -120,8 +120,8 @@ PROPS = {
     },
     "C15": {
         "engines": [{"name": "runtime"}],
-        "text": "Lean 4 theorems over all naturals / all byte strings for Sov, Soz, EncodeVarint and Skip (C15_*), on a hand-written model of runtime.go tied to the code by a differential run of the compiled model against runtime.* and protowire on every check.",
-        "note": "trusted: Lean kernel, correspondence sampling (boundaries, random, 32-bit sweep), math/bits.Len64 spec",
+        "text": "Lean 4 theorems over all naturals / all byte strings for Sov, Soz, EncodeVarint and Skip (C15_*) on a model of runtime.go that is tied to the source twice on every run: (1) tools/go2lean TRANSLATES Sov, Soz, EncodeVarint and Skip from runtime/runtime.go into Lean definitions (go/types; wrapping uint64/int arithmetic, slice reads and writes with index panics, loops as fuel-recursive helpers) and the source-level theorem files prove that the translated functions ARE the model: C15_src_Sov_eq_protowire_size (exhaustion over the 65 bit lengths), C15_src_Soz_eq, C15_src_EncodeVarint_writes_minimal_varint, C15_src_Skip_is_model / _no_panic / _progress / _len (the four loops of Skip by induction: never a panic, exactly the length of the first record protowire accepts, for every input below 2^62 bytes); (2) a differential run of the compiled model against runtime.* and protowire (boundaries, 32-bit sweep, group depth limits, records of 2^31 / 2^32 bytes in an untouched buffer).",
+        "note": "trusted: Lean kernel, the translator tools/go2lean, math/bits.Len64 spec, correspondence sampling; the loop theorems (EncodeVarint, Skip) follow the shape of the loops in the source: when a loop is restructured they are dropped from the run with a note (no alarm) and the function stays with the differential tie",
         "design": "DESIGN.md §3 C15",
     },
     "C16": {
@@ -132,8 +132,8 @@ PROPS = {
     },
     "C17": {
         "engines": [{"name": "timepb"}],
-        "text": "Lean 4 theorems over all valid timestamps/durations (exactness, normalisation, validity, overflow panic, AddStd agreement, total order) on a wrap-around model of cmp.go tied to the code by a differential run on every check.",
-        "note": "trusted: Lean kernel, correspondence sampling, time.Time arithmetic in AddStd (stdlib)",
+        "text": "Lean 4 theorems over all valid timestamps/durations (exactness, normalisation, validity, overflow panic, AddStd agreement, total order) on a wrap-around model of cmp.go. The model is tied to the source twice on every run: (1) tools/go2lean TRANSLATES IsZero, Compare, DurationIsNegative, overflowPanic and Add from support/timepb/cmp.go into Lean definitions (types and constants from go/types; Go's int64/int32 wrap-around, nil dereference = panic) and Properties/C17Src proves that the translated functions ARE the model on all inputs (C17_src_Compare_is_model, C17_src_Add_is_model, by case split + linear arithmetic, independent of how the source spells the computation) and restates the property's clauses about the translated text (C17_src_add_exact, C17_src_add_no_wrap, C17_src_add_overflow_panics, C17_src_compare_chronological); (2) a differential run of the real functions against exact big-integer arithmetic and the model, incl. an exhaustive pass over boundary values derived from the integer constants that occur in the source.",
+        "note": "trusted: Lean kernel, the translator tools/go2lean (go/ast + go/types, ~1000 lines), correspondence sampling, time.Time arithmetic in AddStd (stdlib; outside the translated fragment)",
         "design": "DESIGN.md §3 C17",
     },
     "C18": {
